@@ -129,7 +129,24 @@ enum Sys {
 fn parse_strace(log: &str, root: &str) -> Vec<Sys> {
     let mut fds: std::collections::HashMap<(String, String), String> = std::collections::HashMap::new();
     let mut out = vec![];
+    // a call interrupted by another thread's output is printed in two pieces
+    // (`pid call(args <unfinished ...>` … `pid <... call resumed>rest) = ret`): join them first
+    let mut pending: std::collections::HashMap<String, String> = std::collections::HashMap::new();
+    let mut joined: Vec<String> = vec![];
     for line in log.lines() {
+        let (pid, rest) = line.split_once(' ').unwrap_or(("", line));
+        let rest = rest.trim_start();
+        if let Some(head) = rest.strip_suffix("<unfinished ...>") {
+            pending.insert(pid.to_string(), head.to_string());
+        } else if rest.starts_with("<... ") {
+            if let (Some(head), Some((_, tail))) = (pending.remove(pid), rest.split_once("resumed>")) {
+                joined.push(format!("{} {}{}", pid, head, tail));
+            }
+        } else {
+            joined.push(line.to_string());
+        }
+    }
+    for line in joined.iter() {
         let (pid, rest) = line.split_once(' ').unwrap_or(("", line));
         let rest = rest.trim_start();
         let quoted = |s: &str| -> Vec<String> {
@@ -183,7 +200,80 @@ fn parse_strace(log: &str, root: &str) -> Vec<Sys> {
     out
 }
 
+fn merged(seq: &[String]) -> Vec<String> {
+    let mut v: Vec<String> = vec![];
+    for d in seq {
+        if v.last() != Some(d) || !d.starts_with("append") {
+            v.push(d.clone());
+        }
+    }
+    v
+}
+
+/// the system calls of a run in which one call failed, per note, against the model's `writeFile` / `writeFileFailing`
+fn fault_trace_disagreement(model: &mut Model, sys: &[Sys]) -> Option<String> {
+    let mut order: Vec<String> = vec![];
+    let mut per_note: BTreeMap<String, Vec<String>> = BTreeMap::new();
+    for s in sys {
+        let (note, d) = match s {
+            Sys::OpenTrunc(p) => (p.trim_end_matches(".tmp").to_string(), format!("openTrunc {}", p)),
+            Sys::Write(p, _) => (p.trim_end_matches(".tmp").to_string(), format!("append {}", p)),
+            Sys::Unlink(p) => (p.trim_end_matches(".tmp").to_string(), format!("unlink {}", p)),
+            Sys::Rename(a, b) => (b.clone(), format!("rename {} {}", a, b)),
+        };
+        if !order.contains(&note) {
+            order.push(note.clone());
+        }
+        per_note.entry(note).or_default().push(d);
+    }
+    let mut failing = 0;
+    for (i, note) in order.iter().enumerate() {
+        let observed = merged(&per_note[note]);
+        let key = note.trim_end_matches(".md");
+        let steps_of = |reply: &str| -> Vec<String> {
+            merged(
+                &dump::children(reply)
+                    .iter()
+                    .skip(1)
+                    .map(|s| {
+                        let c = dump::children(s);
+                        format!("{} {}", c[0], c[1..].iter().filter_map(|x| unhex(x)).map(|x| x.trim_start_matches("lib/").to_string()).collect::<Vec<_>>().join(" "))
+                    })
+                    .collect::<Vec<_>>(),
+            )
+        };
+        let mut complete = false;
+        let mut fails = false;
+        for n in 0..=2 {
+            if steps_of(&model.call(&format!("(fs.writeFile true {} {} {})", hex("lib"), hex(key), n))) == observed {
+                complete = true;
+            }
+            for k in 0..=(n + 1) {
+                if steps_of(&model.call(&format!("(fs.writeFileFailing {} {} {} {})", hex("lib"), hex(key), n, k))) == observed {
+                    fails = true;
+                }
+            }
+        }
+        if complete {
+            continue;
+        }
+        if !fails {
+            return Some(format!("note {:?}: system calls {:?} are neither a complete write nor a failing write of the model", note, observed));
+        }
+        failing += 1;
+        if i + 1 != order.len() {
+            return Some(format!("note {:?} failed ({:?}) but the run went on to other notes", note, observed));
+        }
+    }
+    if failing > 1 {
+        return Some(format!("{} notes with a failing write sequence", failing));
+    }
+    None
+}
+
 pub struct CaseResult {
+    /// runs with a failing call whose system calls were compared with the model's error branch
+    pub fault_traces: u64,
     pub fail: Option<String>,
     pub disagree: Option<String>,
     pub injections: u64,
@@ -193,7 +283,7 @@ pub fn check_tree(model: &mut Model, files: &[(String, String)], tag: &str, max_
     let base = PathBuf::from(format!("/verif/harness/tmp/c19-{}-{}", std::process::id(), tag));
     let root = base.join("lib");
     let fresh = || write_tree(&root, files);
-    let mut res = CaseResult { fail: None, disagree: None, injections: 0 };
+    let mut res = CaseResult { fault_traces: 0, fail: None, disagree: None, injections: 0 };
     fresh();
     let before = snapshot(&root);
     let Some(want) = expected(&root) else {
@@ -280,6 +370,27 @@ pub fn check_tree(model: &mut Model, files: &[(String, String)], tag: &str, max_
             continue;
         }
         fresh();
+        if *mode == 0 {
+            // a single failing call: the error branch of `write_file` runs.  Its system calls are compared with the
+            // model (`writeFileFailing`): every note is written completely or by a failing sequence, at most one fails
+            let flog = base.join("fault.log");
+            let inject = format!("inject={}:error=ENOSPC:when={}", sc, k);
+            let _ = run_iwe(&root, Some(&["-f", "-qq", "-s", "0", "-o", flog.to_str().unwrap(), "-e", "trace=openat,write,close,rename,renameat,renameat2,unlink,unlinkat", "-e", &inject]));
+            let fsys = parse_strace(&std::fs::read_to_string(&flog).unwrap_or_default(), root.to_str().unwrap());
+            if res.disagree.is_none() {
+                res.disagree = fault_trace_disagreement(model, &fsys).map(|w| format!("{} #{} fails with ENOSPC: {}", sc, k, w));
+            }
+            res.injections += 1;
+            res.fault_traces += 1;
+            let after = snapshot(&root);
+            if let Some(w) = check_after(&before, &after, &want, false, true) {
+                if res.fail.is_none() {
+                    res.fail = Some(format!("{} #{} fails with ENOSPC: {}", sc, k, w));
+                }
+                break;
+            }
+            continue;
+        }
         let inject = match mode {
             1 => format!("inject={}:signal=KILL:when={}", sc, k),
             2 => format!("inject={}:error=ENOSPC:when={}+", sc, k),
@@ -300,7 +411,7 @@ pub fn check_tree(model: &mut Model, files: &[(String, String)], tag: &str, max_
 }
 
 pub fn run(ctx: &Ctx, model: &mut Model, rep: &mut Report) {
-    rep.rule = "directory trees of 1-6 notes (nested directories, names with spaces and non-ASCII, non-note files next to them) normalised by the real `iwe` binary built from /repo; correspondence: the write-side system calls per note seen under strace vs the step sequence of the model's write_file; fault enumeration: the k-th write / rename system call fails with ENOSPC, it and all later ones fail (the disk stays full), or the process is killed there (strace -e inject), for the sampled k; after every run each note file holds its complete old or new text, non-note files are untouched, nothing is created or deleted; non-trivial = ≥1 note whose text changes; distinct by tree".to_string();
+    rep.rule = "directory trees of 1-6 notes (nested directories, names with spaces and non-ASCII, non-note files next to them) normalised by the real `iwe` binary built from /repo; correspondence: the write-side system calls per note seen under strace vs the step sequence of the model's write_file; correspondence under a failing call: the system calls of the error branch vs the model's writeFileFailing; fault enumeration: the k-th write / rename system call fails with ENOSPC, it and all later ones fail (the disk stays full), or the process is killed there (strace -e inject), for the sampled k; after every run each note file holds its complete old or new text, non-note files are untouched, nothing is created or deleted; non-trivial = ≥1 note whose text changes; distinct by tree".to_string();
     if !Path::new(IWE_BIN).exists() {
         rep.notes.push(format!("{} not built", IWE_BIN));
         rep.disagree(json!({"op": "build", "what": "the iwe binary is missing"}));
@@ -341,7 +452,8 @@ pub fn run(ctx: &Ctx, model: &mut Model, rep: &mut Report) {
             rep.sample(json!({"files": files.iter().map(|(p, c)| (p.clone(), c.chars().take(80).collect::<String>())).collect::<Vec<_>>()}));
         }
         let r = check_tree(model, &files, &format!("{}", i), if ctx.thorough { 10_000 } else { 14 });
-        rep.correspondence_cases += 1;
+        rep.correspondence_cases += 1 + r.fault_traces;
+        rep.count_n("fault_traces_vs_model", r.fault_traces);
         rep.count_n("fault_injections", r.injections);
         rep.evaluations += r.injections;
         if let Some(d) = r.disagree {
